@@ -28,6 +28,9 @@ func loadAuthorizationRequest(data []byte, version int) (*AuthorizationRequestCl
 	if ac.Type != "" && ac.Type != AuthorizationRequestClaim {
 		return nil, fmt.Errorf("claim declares conflicting types %q and %q", AuthorizationRequestClaim, ac.Type)
 	}
+	if ac.Version > version {
+		return nil, fmt.Errorf("claim declares conflicting versions %d and %d", version, ac.Version)
+	}
 	return &ac, nil
 }
 
@@ -38,6 +41,9 @@ func loadAuthorizationResponse(data []byte, version int) (*AuthorizationResponse
 	}
 	if ac.Type != "" && ac.Type != AuthorizationResponseClaim {
 		return nil, fmt.Errorf("claim declares conflicting types %q and %q", AuthorizationResponseClaim, ac.Type)
+	}
+	if ac.Version > version {
+		return nil, fmt.Errorf("claim declares conflicting versions %d and %d", version, ac.Version)
 	}
 	return &ac, nil
 }
